@@ -133,6 +133,9 @@ def check(ctx: Ctx) -> None:
         n_sites += 1
         ctx.ok("C18.scan", f"{q}: no N1/N2/N3/N6/N7 site")
     class_level_state(ctx, "C18.N7")
+    # a child list that adopts the caller's list makes what a tree renders depend on what is done later to another object
+    from .c14 import own_storage
+    own_storage(ctx, "C18.pure")
     # ---- N8: a mutable default argument that is mutated, stored or returned is one object shared by all calls -----------------------------------
     _MUT = ("append", "extend", "insert", "add", "update", "pop", "remove", "clear", "setdefault", "sort", "reverse", "popitem", "discard", "__iadd__")
     n8 = 0
